@@ -407,4 +407,157 @@ def gen():
         raise Unsupported('unexpected get_data arguments: %s' % names)
     emit(defs, 'gen_get_data_names_first', get_data_order)
 
-    return 'bionumpy/genomic_data/genome_context.py, streams/multistream.py, streams/left_join.py, streams/groupby_func.py, genomic_data/genomic_track.py', defs
+    # ---- the pull machine: computation_graph.py, the order in which each public call asks its leaves, zip
+    cg = parse('bionumpy/computation_graph.py')
+    gi = parse('bionumpy/genomic_data/genomic_intervals.py')
+    dec = parse('bionumpy/streams/decorators.py')
+    sm = parse('bionumpy/arithmetics/similarity_measures.py')
+
+    def assigned(func, target_src):
+        return only([n.value for n in ast.walk(func) if isinstance(n, ast.Assign) and len(n.targets) == 1
+                     and src_of(n.targets[0]) == target_src], target_src + ' =')
+
+    def cg_get_iter():
+        f = find_function(cg, 'Node.get_iter')
+        loop = only([n for n in f.body if isinstance(n, ast.For)], 'for in get_iter')
+        if not (src_of(loop.target) == 'i' and src_of(loop.iter) == 'count()' and len(loop.body) == 1 and isinstance(loop.body[0], ast.Try)):
+            raise Unsupported('get_iter is not `for i in count(): try: ...`')
+        t = loop.body[0]
+        if not (len(t.body) == 1 and is_yield_stmt(t.body[0]) and src_of(t.body[0].value.value) == 'self._get_buffer(i)'
+                and len(t.handlers) == 1 and src_of(t.handlers[0].type) == 'StopIteration' and len(t.handlers[0].body) == 1
+                and isinstance(t.handlers[0].body[0], ast.Break) and not t.orelse and not t.finalbody):
+            raise Unsupported('get_iter does not yield self._get_buffer(i) until StopIteration')
+        return 'Definition gen_cg_get_iter_stops_on_stopiteration : bool := true.\n'
+    emit(defs, 'gen_cg_get_iter_stops_on_stopiteration', cg_get_iter)
+
+    def cg_args_order():
+        f = find_function(cg, 'ComputationNode._get_buffer')
+        v = assigned(f, 'args')
+        if not (isinstance(v, ast.ListComp) and len(v.generators) == 1 and src_of(v.generators[0].iter) == 'self._args' and not v.generators[0].ifs
+                and src_of(v.elt) == 'a._get_buffer(i) if isinstance(a, Node) else a' and src_of(v.generators[0].target) == 'a'):
+            raise Unsupported('args are not fetched by a list comprehension over self._args')
+        # the fetch must not sit inside a try (a StopIteration of an argument has to reach get_iter)
+        for n in ast.walk(f):
+            if isinstance(n, ast.Try) and any(isinstance(m, ast.Assign) and src_of(m.targets[0]) == 'args' for m in ast.walk(n)):
+                raise Unsupported('argument fetch is inside a try')
+        return 'Definition gen_cg_args_in_list_order : bool := true.\n'
+    emit(defs, 'gen_cg_args_in_list_order', cg_args_order)
+
+    def cg_streamnode():
+        init = find_function(cg, 'StreamNode.__init__')
+        if src_of(init.body[-1]) != 'self._get_buffer(0)':
+            raise Unsupported('StreamNode.__init__ does not end with self._get_buffer(0)')
+        gbuf = find_function(cg, 'StreamNode._get_buffer')
+        guard = only([n for n in gbuf.body if isinstance(n, ast.If)], 'if in StreamNode._get_buffer')
+        if not (src_of(guard.test) == 'i > self._buffer_index' and src_of(guard.body[0]) == 'self._current_buffer = next(self._stream)'):
+            raise Unsupported('StreamNode._get_buffer does not advance with next(self._stream)')
+        return 'Definition gen_cg_streamnode_pulls_first_eagerly : bool := true.\n'
+    emit(defs, 'gen_cg_streamnode_pulls_first_eagerly', cg_streamnode)
+
+    def leaf_codes():
+        """source text of a node expression -> code of the leaf it is (0 names, 1 data, 2 sizes), checked at its definition"""
+        codes = {}
+        a_init = find_function(gt, 'GenomicArrayNode.__init__')
+        if src_of(assigned(a_init, 'self._chrom_name_node')) != 'StreamNode(iter(genome_context.chrom_sizes.keys()))':
+            raise Unsupported('_chrom_name_node is not the stream of chrom_sizes keys')
+        codes['self._chrom_name_node'] = [0]
+        s_init = find_function(gi, 'GenomicIntervalsStreamed.__init__')
+        if src_of(assigned(s_init, 'self._chrom_size_node')) != 'StreamNode(iter(self._genome_context.chrom_sizes.values()))':
+            raise Unsupported('_chrom_size_node is not the stream of chrom_sizes values')
+        if src_of(assigned(s_init, 'self._intervals_node')) != 'intervals_node':
+            raise Unsupported('_intervals_node is not the constructor argument')
+        codes['self._chrom_size_node'] = [2]
+        codes['self._intervals_node'] = [1]
+        codes['intervals_node'] = [1]
+        return codes
+
+    def node_args(call):
+        if not (isinstance(call, ast.Call) and src_of(call.func) == 'ComputationNode' and len(call.args) == 2 and isinstance(call.args[1], ast.List)):
+            raise Unsupported('not ComputationNode(f, [...]): %s' % src_of(call))
+        return call.args[1].elts
+
+    def order_of(elts, codes):
+        out = []
+        for x in elts:
+            if isinstance(x, ast.Constant):
+                continue                      # a non-node argument ('start') is passed through
+            sx = src_of(x)
+            if sx not in codes:
+                raise Unsupported('unknown leaf %s' % sx)
+            out += codes[sx]
+        return out
+
+    def zlist(name, l):
+        return 'Definition %s : list Z := %s.\n' % (name, '(' + ' :: '.join([str(x) for x in l] + ['nil']) + ')')
+
+    def pileup_order(codes):
+        f = find_function(gi, 'GenomicIntervalsStreamed.get_pileup')
+        r = only([n for n in ast.walk(f) if isinstance(n, ast.Return)], 'return')
+        if not (isinstance(r.value, ast.Call) and src_of(r.value.func) == 'GenomicArrayNode' and len(r.value.args) == 2):
+            raise Unsupported('get_pileup does not return GenomicArrayNode(node, context)')
+        return order_of(node_args(r.value.args[0]), codes)
+
+    def track_order():
+        f = find_function(gt, 'GenomicArray.from_bedgraph')
+        if src_of(assigned(f, 'filled')) != 'genome_context.iter_chromosomes(bedgraph, BedGraph)' or src_of(assigned(f, 'interval_stream')) != 'StreamNode(filled)':
+            raise Unsupported('from_bedgraph does not stream iter_chromosomes(bedgraph, BedGraph)')
+        rets = [n for n in ast.walk(f) if isinstance(n, ast.Return) and 'GenomicArrayNode' in src_of(n)]
+        r = only(rets, 'streamed return of from_bedgraph')
+        codes = {'interval_stream': [1], 'StreamNode(iter(genome_context.chrom_sizes.values()))': [2]}
+        return order_of(node_args(r.value.args[0]), codes)
+
+    def pull_orders():
+        codes = leaf_codes()
+        run_length = pileup_order(codes)
+        if track_order() != run_length:
+            raise Unsupported('get_track and get_pileup ask their leaves in different orders')
+        a_init = find_function(gt, 'GenomicArrayNode.__init__')
+        if src_of(assigned(a_init, 'self._run_length_node')) != 'run_length_node':
+            raise Unsupported('_run_length_node is not the constructor argument')
+        codes = dict(codes)
+        codes['self._run_length_node'] = run_length
+        gd = find_function(gt, 'GenomicArrayNode.get_data')
+        r = only([n for n in ast.walk(gd) if isinstance(n, ast.Return)], 'return of get_data')
+        get_data = order_of(node_args(r.value), codes)
+        sm_f = find_function(gt, 'GenomicArrayNode.sum')
+        r = only([n for n in ast.walk(sm_f) if isinstance(n, ast.Return)], 'return of sum')
+        if src_of(r.value) != 'np.sum(self._run_length_node)':
+            raise Unsupported('GenomicArrayNode.sum is not np.sum(self._run_length_node)')
+        s_init = find_function(gi, 'GenomicIntervalsStreamed.__init__')
+        field = order_of(node_args(assigned(s_init, 'self._start')), codes)
+        if order_of(node_args(assigned(s_init, 'self._stop')), codes) != field:
+            raise Unsupported('start and stop differ')
+        return (zlist('gen_pull_order_get_data', get_data) + zlist('gen_pull_order_reduce', run_length)
+                + zlist('gen_pull_order_field', field))
+    emit(defs, 'gen_pull_order_get_data', pull_orders)
+
+    def zip_order():
+        f = find_function(dec, 'streamable._args_stream')
+        if src_of(assigned(f, 'streams')) != 'tuple((args[i] for i in stream_indices))':
+            raise Unsupported('streams are not taken in index order: %s' % src_of(assigned(f, 'streams')))
+        loop = only([n for n in f.body if isinstance(n, ast.For)], 'for in _args_stream')
+        if src_of(loop.iter) != 'zip(*streams)':
+            raise Unsupported('_args_stream does not zip the streams')
+        nf = None
+        for n in ast.walk(find_function(dec, 'streamable.__call__')):
+            if isinstance(n, ast.FunctionDef) and n.name == 'new_func':
+                nf = n
+        if nf is None or src_of(assigned(nf, 'stream_args')) != '[i for i, arg in enumerate(args) if isinstance(arg, (BnpStream, types.GeneratorType))]':
+            raise Unsupported('stream indices are not enumerated in argument order')
+        orders = []
+        for fn in ('forbes', 'jaccard'):
+            g = find_function(sm, fn)
+            if src_of(assigned(g, 'ms')) != 'MultiStream(chromosome_sizes, a=intervals_a, b=intervals_b)':
+                raise Unsupported('%s does not build MultiStream(chromosome_sizes, a=…, b=…)' % fn)
+            call = only([n for n in ast.walk(g) if isinstance(n, ast.Call) and src_of(n.func) == 'get_contingency_table'], 'get_contingency_table call')
+            m = {'ms.a': 3, 'ms.b': 1, 'ms.lengths': 2}
+            srcs = [src_of(a) for a in call.args]
+            if any(x not in m for x in srcs) or call.keywords:
+                raise Unsupported('%s passes %s' % (fn, srcs))
+            orders.append([m[x] for x in srcs])
+        if orders[0] != orders[1]:
+            raise Unsupported('forbes and jaccard differ')
+        return 'Definition gen_streamable_zips_in_arg_order : bool := true.\n' + zlist('gen_pull_order_zip', orders[0])
+    emit(defs, 'gen_streamable_zips_in_arg_order', zip_order)
+
+    return 'bionumpy/genomic_data/genome_context.py, streams/multistream.py, streams/left_join.py, streams/groupby_func.py, genomic_data/genomic_track.py, genomic_data/genomic_intervals.py, computation_graph.py, streams/decorators.py, arithmetics/similarity_measures.py', defs
